@@ -618,17 +618,13 @@ def correspondence(rng, tier):
     return [cs, prox_cases(rng, tier), kind_cases(), dispatch_cases()]
 
 
-def probes(rng, tier):
-    return []
-
-
 LEVEL_TEXT = ('Partial proof. Coq proves, for EVERY store, every NaN-free input, every (NaN-filled or not) content of '
               'out and of uninitialised memory: (1) for ANY `_call` implementation, op(x, out=y) can only return y, '
               'op(x) is in op.range, uncastable input / out outside the range / out for a functional are rejected '
               'before any slot runs with the store untouched; (2) both default bridges are correct for all three '
               'dispatch kinds; (3) space.lincomb writes a*x1+b*x2 in both size regimes and all alias patterns; '
               '(4) by structural induction over operator trees of ANY depth built from the nine expression classes '
-              '(bodies regenerated from operator.py), five translated leaf classes and primitive leaves of all three '
+              '(bodies regenerated from operator.py; fresh or user-supplied temporaries), five translated leaf classes and primitive leaves of all three '
               'dispatch kinds incl. alias-returning ones: in-place = out-of-place = the denoted function, result is y / '
               'an element of the range, no other pre-existing object (in particular x) is modified; same for '
               'functional-valued trees. Refuted (and recorded): out.set_zero() on < 100 entries keeps NaN, hence '
@@ -640,7 +636,652 @@ LEVEL_NOTE = ('Trusted: translate/call_bodies.py (fail-closed ast grammar) and t
               'differential cases incl. NaN-filled out, user temporaries, foreign-space arguments, error outcomes; exact '
               'arithmetic with one absorbing NaN (rounding, inf, BLAS regime >= 50000 entries out of scope); flat real '
               'tensor spaces in the model. Theorems assume x, out and operator-owned elements are distinct objects and '
-              '(in the theorems, not in the correspondence) fresh temporaries; the refutations show these side '
+              'pairwise distinct from user-supplied temporaries; the refutations show these side '
               'conditions are necessary. Axioms: classical reals + funext as printed.')
 TECHNIQUE = ('Coq: heap semantics over a poisoned carrier, symbolic execution of source-regenerated `_call` bodies, '
              'structural induction over operator trees; in-Coq differential correspondence; introspection-driven probes')
+
+
+# =====================================================================================
+# Probes: the property evaluated directly on every concrete Operator/Functional class
+# =====================================================================================
+def _flat(el):
+    import odl
+    sp = getattr(el, 'space', None)
+    if isinstance(sp, odl.ProductSpace):
+        parts = [_flat(p) for p in el]
+        return np.concatenate(parts) if parts else np.zeros(0)
+    return np.asarray(el).ravel()
+
+
+def _is_float(dt):
+    return np.issubdtype(dt, np.floating) or np.issubdtype(dt, np.complexfloating)
+
+
+def _poison(space):
+    """A new element of `space` filled with NaN (or a sentinel for integer / bool spaces)."""
+    import odl
+    if isinstance(space, odl.ProductSpace):
+        return space.element([_poison(s) for s in space.spaces])
+    dt = np.dtype(space.dtype)
+    if np.issubdtype(dt, np.complexfloating):
+        v = complex(np.nan, np.nan)
+    elif np.issubdtype(dt, np.floating):
+        v = np.nan
+    elif dt == bool:
+        v = True
+    else:
+        v = 77
+    return space.element(np.full(space.shape, v, dtype=dt))
+
+
+def _rand(space, rng, kind='any'):
+    """A random element with small 'nice' entries.  kind: any | pos | unit | prob"""
+    import odl
+    if isinstance(space, odl.ProductSpace):
+        return space.element([_rand(s, rng, kind) for s in space.spaces])
+    if isinstance(space, (odl.RealNumbers, odl.ComplexNumbers)):
+        return {'any': 1.5, 'pos': 2.0, 'unit': 0.5, 'prob': 0.25, 'ge1': 2.0}[kind]
+    dt = np.dtype(space.dtype)
+    n = int(np.prod(space.shape))
+    if kind == 'pos':
+        vals = [float(rng.randint(1, 6)) / 2 for _ in range(n)]
+    elif kind == 'ge1':
+        vals = [1.0 + float(rng.randint(0, 4)) / 2 for _ in range(n)]
+    elif kind == 'unit':
+        vals = [float(rng.randint(-3, 3)) / 4 for _ in range(n)]
+    elif kind == 'prob':
+        vals = [float(rng.randint(1, 4)) / 8 for _ in range(n)]
+    else:
+        vals = [float(rng.randint(-6, 6)) / 2 for _ in range(n)]
+    arr = np.array(vals)
+    if np.issubdtype(dt, np.complexfloating):
+        arr = arr + 1j * np.array([float(rng.randint(-4, 4)) / 2 for _ in range(n)])
+    elif dt == bool:
+        arr = arr > 0
+    elif np.issubdtype(dt, np.integer):
+        arr = np.array([0 if kind == 'unit' else rng.randint(1, 5) if kind != 'any' else rng.randint(-5, 5)
+                        for _ in range(n)])
+    return space.element(arr.astype(dt).reshape(space.shape))
+
+
+def _poison_allocator(space, times=3):
+    """Free NaN-filled blocks of the sizes `space.element()` will ask for, so that NumPy's
+    small-block cache hands NaN memory to the next np.empty of that size (best effort)."""
+    import odl
+    if isinstance(space, odl.ProductSpace):
+        for s in space.spaces:
+            _poison_allocator(s, times)
+        return
+    if not hasattr(space, 'dtype') or not _is_float(np.dtype(space.dtype)):
+        return
+    blocks = [np.full(space.shape, np.nan, dtype=space.dtype) for _ in range(times)]
+    del blocks
+
+
+def _close(a, b):
+    a, b = np.asarray(a), np.asarray(b)
+    if a.shape != b.shape:
+        return False
+    if a.dtype == bool or b.dtype == bool or not _is_float(a.dtype):
+        return bool(np.array_equal(a, b))
+    return bool(np.allclose(a, b, rtol=1e-9, atol=1e-11, equal_nan=False))
+
+
+class _Recipes(object):
+    """Constructor recipes: class name -> list of (label, builder, input kind).  `big` selects
+    spaces with >= 100 entries (the other lincomb regime)."""
+
+    def __init__(self, rng, big):
+        import odl
+        self.odl, self.rng, self.big = odl, rng, big
+        n = 120 if big else 3
+        self.n = n
+        self.sp = odl.rn(n)
+        self.spw = odl.rn(n, weighting=2.0)
+        self.sp2 = odl.rn(n + 1)
+        self.csp = odl.cn(n)
+        self.isp = odl.tensor_space(n, dtype=int)
+        self.dsp = odl.uniform_discr(0, 1, n)
+        self.shape2 = (10, 12) if big else (2, 3)
+        self.dsp2 = odl.uniform_discr([0, 0], [1, 1], self.shape2)
+        self.cdsp = odl.uniform_discr(0, 1, n if n % 2 == 0 else n + 1, dtype=complex)
+        self.ps = odl.ProductSpace(self.sp, 2)
+        self.pd = odl.ProductSpace(self.dsp2, 2)
+
+    # -- small helpers
+    def v(self, space, kind='any'):
+        return _rand(space, self.rng, kind)
+
+    def mat(self, m, n):
+        return np.array([[float(self.rng.randint(-2, 2)) for _ in range(n)] for _ in range(m)])
+
+    def A(self):
+        return self.odl.ScalingOperator(self.sp, 3.0)
+
+    def B(self):
+        return self.odl.MultiplyOperator(self.v(self.sp))
+
+    def alias(self):
+        return self.odl.RealPart(self.sp)
+
+    def f(self):
+        return self.odl.solvers.L2NormSquared(self.sp)
+
+    def g(self):
+        return self.odl.solvers.L1Norm(self.sp)
+
+    def table(self):
+        odl, O, S = self.odl, self.odl.operator.operator, self.odl.solvers
+        sp, spw, sp2, csp, dsp, dsp2, ps, pd, n = (self.sp, self.spw, self.sp2, self.csp, self.dsp, self.dsp2,
+                                                   self.ps, self.pd, self.n)
+        v, A, B, f, g = self.v, self.A, self.B, self.f, self.g
+        T = {}
+
+        def add(name, label, build, kind='any'):
+            T.setdefault(name, []).append((label, build, kind))
+
+        # ---- operator.py expression classes (incl. alias-returning and functional operands, user temporaries)
+        add('OperatorSum', 'A+B', lambda: O.OperatorSum(A(), B()))
+        add('OperatorSum', 'alias+A', lambda: O.OperatorSum(self.alias(), A()))
+        add('OperatorSum', 'tmp_ran', lambda: O.OperatorSum(A(), B(), tmp_ran=sp.element()))
+        add('OperatorSum', 'f+g', lambda: O.OperatorSum(f(), g()))
+        add('OperatorVectorSum', 'A+v', lambda: O.OperatorVectorSum(A(), v(sp)))
+        add('OperatorVectorSum', 'alias+v', lambda: O.OperatorVectorSum(self.alias(), v(sp)))
+        add('OperatorComp', 'A o B', lambda: O.OperatorComp(A(), B()))
+        add('OperatorComp', 'A o alias', lambda: O.OperatorComp(A(), self.alias()))
+        add('OperatorComp', 'alias o A', lambda: O.OperatorComp(self.alias(), A()))
+        add('OperatorComp', 'tmp', lambda: O.OperatorComp(A(), B(), tmp=sp.element()))
+        add('OperatorComp', 'M o A', lambda: O.OperatorComp(odl.MatrixOperator(self.mat(n, n)), A()))
+        add('OperatorComp', 'M o M', lambda: O.OperatorComp(odl.MatrixOperator(self.mat(n, n)), odl.MatrixOperator(self.mat(n, n))))
+        add('OperatorComp', 'f o A', lambda: O.OperatorComp(f(), A()))
+        add('OperatorPointwiseProduct', 'A*B', lambda: O.OperatorPointwiseProduct(A(), B()))
+        add('OperatorPointwiseProduct', 'alias*A', lambda: O.OperatorPointwiseProduct(self.alias(), A()))
+        add('OperatorLeftScalarMult', '2A', lambda: O.OperatorLeftScalarMult(B(), 2.0))
+        add('OperatorLeftScalarMult', '0A', lambda: O.OperatorLeftScalarMult(B(), 0.0))
+        add('OperatorLeftScalarMult', '2alias', lambda: O.OperatorLeftScalarMult(self.alias(), 2.0))
+        add('OperatorRightScalarMult', 'A2', lambda: O.OperatorRightScalarMult(B(), 2.0))
+        add('OperatorRightScalarMult', 'A0', lambda: O.OperatorRightScalarMult(B(), 0.0))
+        add('OperatorRightScalarMult', 'tmp', lambda: O.OperatorRightScalarMult(B(), 2.0, tmp=sp.element()))
+        add('OperatorRightScalarMult', 'alias2', lambda: O.OperatorRightScalarMult(self.alias(), 2.0))
+        add('FunctionalLeftVectorMult', 'v*f', lambda: O.FunctionalLeftVectorMult(f(), v(sp)))
+        add('OperatorLeftVectorMult', 'v*A', lambda: O.OperatorLeftVectorMult(A(), v(sp)))
+        add('OperatorLeftVectorMult', 'v*alias', lambda: O.OperatorLeftVectorMult(self.alias(), v(sp)))
+        add('OperatorRightVectorMult', 'A*v', lambda: O.OperatorRightVectorMult(A(), v(sp)))
+        add('OperatorRightVectorMult', 'alias*v', lambda: O.OperatorRightVectorMult(self.alias(), v(sp)))
+        # ---- default_ops.py
+        add('ScalingOperator', 'rn', lambda: odl.ScalingOperator(sp, 2.5))
+        add('ScalingOperator', 'zero', lambda: odl.ScalingOperator(sp, 0.0))
+        add('ScalingOperator', 'discr', lambda: odl.ScalingOperator(dsp2, -1.0))
+        add('ScalingOperator', 'pspace', lambda: odl.ScalingOperator(ps, 2.0))
+        add('IdentityOperator', 'rn', lambda: odl.IdentityOperator(sp))
+        add('IdentityOperator', 'pspace', lambda: odl.IdentityOperator(ps))
+        add('LinCombOperator', 'a,b', lambda: odl.LinCombOperator(sp, 2.0, -1.0))
+        add('LinCombOperator', '0,1', lambda: odl.LinCombOperator(sp, 0.0, 1.0))
+        add('LinCombOperator', '0,0', lambda: odl.LinCombOperator(sp, 0.0, 0.0))
+        add('MultiplyOperator', 'elem', lambda: odl.MultiplyOperator(v(sp)))
+        add('MultiplyOperator', 'scalar', lambda: odl.MultiplyOperator(2.0, domain=sp, range=sp))
+        add('MultiplyOperator', 'discr', lambda: odl.MultiplyOperator(v(dsp2)))
+        add('PowerOperator', '2', lambda: odl.PowerOperator(sp, 2))
+        add('PowerOperator', '3', lambda: odl.PowerOperator(sp, 3))
+        add('PowerOperator', '1', lambda: odl.PowerOperator(sp, 1))
+        add('PowerOperator', '0', lambda: odl.PowerOperator(sp, 0))
+        add('PowerOperator', '-1', lambda: odl.PowerOperator(sp, -1), 'pos')
+        add('InnerProductOperator', 'rn', lambda: odl.InnerProductOperator(v(sp)))
+        add('NormOperator', 'rn', lambda: odl.NormOperator(sp))
+        add('DistOperator', 'rn', lambda: odl.DistOperator(v(sp)))
+        add('ConstantOperator', 'same', lambda: odl.ConstantOperator(v(sp)))
+        add('ConstantOperator', 'other', lambda: odl.ConstantOperator(v(sp2), domain=sp))
+        add('ZeroOperator', 'same', lambda: odl.ZeroOperator(sp))
+        add('ZeroOperator', 'other', lambda: odl.ZeroOperator(sp, sp2))
+        add('ZeroOperator', 'pspace', lambda: odl.ZeroOperator(ps))
+        add('RealPart', 'real', lambda: odl.RealPart(sp))
+        add('RealPart', 'complex', lambda: odl.RealPart(csp))
+        add('ImagPart', 'real', lambda: odl.ImagPart(sp))
+        add('ImagPart', 'complex', lambda: odl.ImagPart(csp))
+        add('ComplexEmbedding', 'real', lambda: odl.ComplexEmbedding(sp, scalar=1 + 2j))
+        add('ComplexEmbedding', 'complex', lambda: odl.ComplexEmbedding(csp, scalar=2j))
+        add('ComplexModulus', 'cn', lambda: odl.ComplexModulus(csp))
+        add('ComplexModulusSquared', 'cn', lambda: odl.ComplexModulusSquared(csp))
+        add('ComplexModulusDerivative', 'cn', lambda: odl.ComplexModulus(csp).derivative(v(csp, 'pos')))
+        add('ComplexModulusDerivativeAdjoint', 'cn', lambda: odl.ComplexModulus(csp).derivative(v(csp, 'pos')).adjoint)
+        add('ComplexModulusSquaredDerivative', 'cn', lambda: odl.ComplexModulusSquared(csp).derivative(v(csp)))
+        add('ComplexModulusSquaredDerivAdj', 'cn', lambda: odl.ComplexModulusSquared(csp).derivative(v(csp)).adjoint)
+        # ---- pspace_ops.py
+        add('BroadcastOperator', 'A,B', lambda: odl.BroadcastOperator(A(), B()))
+        add('BroadcastOperator', 'alias,A', lambda: odl.BroadcastOperator(self.alias(), A()))
+        add('ReductionOperator', 'A,B', lambda: odl.ReductionOperator(A(), B()))
+        add('ReductionOperator', 'alias,A', lambda: odl.ReductionOperator(self.alias(), A()))
+        add('DiagonalOperator', 'A,B', lambda: odl.DiagonalOperator(A(), B()))
+        add('DiagonalOperator', 'alias,A', lambda: odl.DiagonalOperator(self.alias(), A()))
+        add('ProductSpaceOperator', 'full', lambda: odl.ProductSpaceOperator([[A(), B()], [B(), A()]]))
+        add('ProductSpaceOperator', 'sparse', lambda: odl.ProductSpaceOperator([[A(), None], [None, B()]]))
+        add('ProductSpaceOperator.zero_row', 'zero-row', lambda: odl.ProductSpaceOperator([[A(), B()], [None, None]],
+                                                                                  domain=ps, range=ps))
+        add('ProductSpaceOperator', 'alias', lambda: odl.ProductSpaceOperator([[self.alias(), A()], [None, self.alias()]]))
+        add('ComponentProjection', '0', lambda: odl.ComponentProjection(ps, 0))
+        add('ComponentProjection', '[1,0]', lambda: odl.ComponentProjection(ps, [1, 0]))
+        add('ComponentProjectionAdjoint', '0', lambda: odl.ComponentProjectionAdjoint(ps, 0))
+        add('ComponentProjectionAdjoint', '1', lambda: odl.ComponentProjection(odl.ProductSpace(sp, 3), 1).adjoint)
+        # ---- tensor_ops.py
+        add('MatrixOperator', 'dense', lambda: odl.MatrixOperator(self.mat(n + 1, n)))
+        add('MatrixOperator', 'sparse', lambda: odl.MatrixOperator(__import__('scipy.sparse').sparse.csr_matrix(self.mat(n, n))))
+        add('MatrixOperator', 'axis', lambda: odl.MatrixOperator(self.mat(4, self.shape2[1]),
+                                                                 domain=odl.rn(self.shape2), axis=1))
+        add('FlatteningOperator', 'C', lambda: odl.FlatteningOperator(odl.rn(self.shape2)))
+        add('FlatteningOperator', 'F', lambda: odl.FlatteningOperator(odl.rn(self.shape2), order='F'))
+        add('FlatteningOperatorInverse', 'C', lambda: odl.FlatteningOperator(odl.rn(self.shape2)).inverse)
+        add('SamplingOperator', 'point', lambda: odl.SamplingOperator(dsp2, [[0, 1, 1], [0, 1, 2]]))
+        add('SamplingOperator', 'integrate', lambda: odl.SamplingOperator(dsp2, [[0, 1], [2, 1]], variant='integrate'))
+        add('WeightedSumSamplingOperator', 'char', lambda: odl.WeightedSumSamplingOperator(dsp2, [[0, 1, 1], [0, 1, 2]]))
+        add('WeightedSumSamplingOperator', 'dirac', lambda: odl.WeightedSumSamplingOperator(dsp2, [[0, 1], [2, 1]], variant='dirac'))
+        for p in (1, 2, float('inf'), 3):
+            add('PointwiseNorm', 'p=%s' % p, (lambda p=p: odl.PointwiseNorm(pd, exponent=p)))
+        add('PointwiseNorm', 'weighted', lambda: odl.PointwiseNorm(pd, exponent=1, weighting=[1.0, 2.0]))
+        add('PointwiseNorm', 'single', lambda: odl.PointwiseNorm(odl.ProductSpace(dsp2, 1), exponent=3))
+        add('PointwiseInner', 'real', lambda: odl.PointwiseInner(pd, v(pd)))
+        add('PointwiseInner', 'weighted', lambda: odl.PointwiseInner(pd, v(pd), weighting=[1.0, 2.0]))
+        add('PointwiseInnerAdjoint', 'real', lambda: odl.PointwiseInner(pd, v(pd)).adjoint)
+        add('PointwiseInnerAdjoint', 'weighted', lambda: odl.PointwiseInner(pd, v(pd), weighting=[1.0, 2.0]).adjoint)
+        add('PointwiseSum', 'real', lambda: odl.PointwiseSum(pd))
+        # ---- discr
+        for m, p in (('forward', 'constant'), ('backward', 'symmetric'), ('central', 'periodic'), ('forward', 'order1')):
+            add('PartialDerivative', '%s-%s' % (m, p), (lambda m=m, p=p: odl.PartialDerivative(dsp2, 1, method=m, pad_mode=p)))
+            add('Gradient', '%s-%s' % (m, p), (lambda m=m, p=p: odl.Gradient(dsp2, method=m, pad_mode=p)))
+            add('Divergence', '%s-%s' % (m, p), (lambda m=m, p=p: odl.Divergence(range=dsp2, method=m, pad_mode=p)))
+        add('PartialDerivative', 'padconst', lambda: odl.PartialDerivative(dsp2, 0, pad_const=1.0))
+        add('Laplacian', 'constant', lambda: odl.Laplacian(dsp2))
+        add('Laplacian', 'symmetric', lambda: odl.Laplacian(dsp2, pad_mode='symmetric'))
+        add('Laplacian', 'padconst', lambda: odl.Laplacian(dsp2, pad_const=2.0))
+        add('Resampling', 'up', lambda: odl.Resampling(dsp, odl.uniform_discr(0, 1, 2 * n), interp='nearest'))
+        add('Resampling', 'down', lambda: odl.Resampling(odl.uniform_discr(0, 1, 2 * n), dsp, interp='linear'))
+        for pm in ('constant', 'symmetric', 'periodic', 'order0', 'order1'):
+            add('ResizingOperator', pm, (lambda pm=pm: odl.ResizingOperator(dsp, ran_shp=(n + 2,), pad_mode=pm)))
+        add('ResizingOperator', 'crop', lambda: odl.ResizingOperator(dsp, ran_shp=(n - 1,)))
+        add('ResizingOperatorAdjoint', 'constant', lambda: odl.ResizingOperator(dsp, ran_shp=(n + 2,)).adjoint)
+        add('ResizingOperatorAdjoint', 'symmetric', lambda: odl.ResizingOperator(dsp, ran_shp=(n + 2,), pad_mode='symmetric').adjoint)
+        # ---- trafos
+        add('DiscreteFourierTransform', 'cn', lambda: odl.trafos.DiscreteFourierTransform(self.cdsp))
+        add('DiscreteFourierTransform.real_pyfftw', 'real-to-complex', lambda: odl.trafos.DiscreteFourierTransform(
+            odl.uniform_discr(0, 1, self.cdsp.shape[0])))
+        add('DiscreteFourierTransform', 'pyfftw', lambda: odl.trafos.DiscreteFourierTransform(self.cdsp, impl='pyfftw'))
+        add('DiscreteFourierTransformInverse', 'cn', lambda: odl.trafos.DiscreteFourierTransform(self.cdsp).inverse)
+        add('DiscreteFourierTransformInverse', 'pyfftw', lambda: odl.trafos.DiscreteFourierTransform(self.cdsp, impl='pyfftw').inverse)
+        add('FourierTransform', 'cn', lambda: odl.trafos.FourierTransform(self.cdsp))
+        add('FourierTransform.real', 'real', lambda: odl.trafos.FourierTransform(odl.uniform_discr(0, 1, self.cdsp.shape[0])))
+        add('FourierTransform', 'pyfftw', lambda: odl.trafos.FourierTransform(self.cdsp, impl='pyfftw'))
+        add('FourierTransformInverse', 'cn', lambda: odl.trafos.FourierTransform(self.cdsp).inverse)
+        add('WaveletTransform', 'haar', lambda: odl.trafos.WaveletTransform(odl.uniform_discr(0, 1, 128 if self.big else 8), 'haar', nlevels=2))
+        add('WaveletTransformInverse', 'haar', lambda: odl.trafos.WaveletTransform(odl.uniform_discr(0, 1, 128 if self.big else 8), 'haar', nlevels=2).inverse)
+        # ---- deform
+        add('LinDeformFixedTempl', '1d', lambda: odl.deform.LinDeformFixedTempl(v(dsp)), 'unit')
+        add('LinDeformFixedDisp', '1d', lambda: odl.deform.LinDeformFixedDisp(odl.ProductSpace(dsp, 1).element([v(dsp, 'unit')])))
+        # ---- functionals (default_functionals.py)
+        add('LpNorm', 'p=1.5', lambda: S.LpNorm(sp, 1.5))
+        add('L1Norm', 'rn', lambda: S.L1Norm(sp))
+        add('L2Norm', 'rn', lambda: S.L2Norm(sp))
+        add('L2NormSquared', 'rn', lambda: S.L2NormSquared(sp))
+        add('GroupL1Norm', 'pd', lambda: S.GroupL1Norm(pd))
+        add('IndicatorGroupL1UnitBall', 'pd', lambda: S.IndicatorGroupL1UnitBall(pd))
+        add('IndicatorLpUnitBall', 'p=2', lambda: S.IndicatorLpUnitBall(sp, 2))
+        add('IndicatorLpUnitBall', 'p=1', lambda: S.IndicatorLpUnitBall(sp, 1))
+        add('IndicatorLpUnitBall', 'p=inf', lambda: S.IndicatorLpUnitBall(sp, np.inf))
+        add('ConstantFunctional', 'rn', lambda: S.ConstantFunctional(sp, 2.0))
+        add('ZeroFunctional', 'rn', lambda: S.ZeroFunctional(sp))
+        add('ScalingFunctional', 'field', lambda: S.ScalingFunctional(odl.RealNumbers(), 2.0))
+        add('IdentityFunctional', 'field', lambda: S.IdentityFunctional(odl.RealNumbers()))
+        add('IndicatorBox', 'rn', lambda: S.IndicatorBox(sp, -1, 1))
+        add('IndicatorNonnegativity', 'rn', lambda: S.IndicatorNonnegativity(sp))
+        add('IndicatorZero', 'rn', lambda: S.IndicatorZero(sp))
+        add('IndicatorSimplex', 'rn', lambda: S.IndicatorSimplex(sp))
+        add('IndicatorSumConstraint', 'rn', lambda: S.IndicatorSumConstraint(sp))
+        add('KullbackLeibler', 'prior', lambda: S.KullbackLeibler(sp, prior=v(sp, 'pos')), 'pos')
+        add('KullbackLeibler', 'noprior', lambda: S.KullbackLeibler(sp), 'pos')
+        add('KullbackLeiblerConvexConj', 'prior', lambda: S.KullbackLeibler(sp, prior=v(sp, 'pos')).convex_conj, 'prob')
+        add('KullbackLeiblerCrossEntropy', 'prior', lambda: S.KullbackLeiblerCrossEntropy(sp, prior=v(sp, 'pos')), 'pos')
+        add('KullbackLeiblerCrossEntropyConvexConj', 'prior', lambda: S.KullbackLeiblerCrossEntropy(sp, prior=v(sp, 'pos')).convex_conj)
+        add('SeparableSum', 'f,g', lambda: S.SeparableSum(f(), g()))
+        add('QuadraticForm', 'A,b,c', lambda: S.QuadraticForm(operator=odl.ScalingOperator(sp, 2.0), vector=v(sp), constant=1.0))
+        add('NuclearNorm', 'pd', lambda: S.NuclearNorm(odl.ProductSpace(odl.ProductSpace(dsp2, 2), 2)))
+        add('IndicatorNuclearNormUnitBall', 'pd', lambda: S.IndicatorNuclearNormUnitBall(odl.ProductSpace(odl.ProductSpace(dsp2, 2), 2)))
+        add('Huber', 'rn', lambda: S.Huber(sp, 0.5))
+        add('Huber', 'pd', lambda: S.Huber(pd, 0.5))
+        add('MoreauEnvelope', 'l2sq', lambda: S.MoreauEnvelope(f(), sigma=0.5))
+        add('RosenbrockFunctional', 'rn', lambda: S.RosenbrockFunctional(sp))
+        add('NumericalGradient', 'f', lambda: S.NumericalGradient(f()))
+        add('NumericalDerivative', 'A', lambda: S.NumericalDerivative(odl.ufunc_ops.square(sp), v(sp)))
+        # ---- functional.py arithmetic
+        add('FunctionalLeftScalarMult', '2f', lambda: 2.0 * f())
+        add('FunctionalRightScalarMult', 'f2', lambda: f() * 2.0)
+        add('FunctionalComp', 'f o A', lambda: f() * A())
+        add('FunctionalRightVectorMult', 'f*v', lambda: f() * v(sp))
+        add('FunctionalSum', 'f+g', lambda: f() + g())
+        add('FunctionalScalarSum', 'f+2', lambda: f() + 2.0)
+        add('FunctionalTranslation', 'f(.-v)', lambda: f().translated(v(sp)))
+        add('InfimalConvolution', 'f,g', lambda: S.InfimalConvolution(f(), g()))
+        add('FunctionalQuadraticPerturb', 'f+q', lambda: S.FunctionalQuadraticPerturb(f(), quadratic_coeff=0.5, linear_term=v(sp), constant=1.0))
+        add('FunctionalProduct', 'f*g', lambda: S.FunctionalProduct(f(), g()))
+        add('FunctionalQuotient', 'f/g', lambda: S.FunctionalQuotient(f(), S.ConstantFunctional(sp, 2.0) + g()))
+        def bregman():
+            pt = v(sp)
+            return S.BregmanDistance(f(), pt, f().gradient(pt))
+        add('BregmanDistance', 'f', bregman)
+        add('FunctionalDefaultConvexConjugate', 'f',
+            lambda: odl.solvers.functional.functional.FunctionalDefaultConvexConjugate(f()))
+
+        def ray(adjoint=False):
+            shp = (12, 12) if self.big else (4, 4)
+            rsp = odl.uniform_discr([-1, -1], [1, 1], shp)
+            geom = odl.tomo.parallel_beam_geometry(rsp, num_angles=3)
+            R = odl.tomo.RayTransform(rsp, geom, impl='skimage')
+            return R.adjoint if adjoint else R
+        add('RayTransform', 'skimage', ray, 'pos')
+        add('RayBackProjection', 'skimage', lambda: ray(True), 'pos')
+        return T
+
+    def derived(self):
+        """Operators reached through gradient / proximal / convex_conj / derivative / adjoint of the
+        functional recipes and through the proximal factories (classes defined inside functions)."""
+        odl, S = self.odl, self.odl.solvers
+        sp, pd, v = self.sp, self.pd, self.v
+        P = odl.solvers.nonsmooth.proximal_operators
+        out = []
+
+        def add(label, build, kind='any'):
+            out.append((label, build, kind))
+
+        fun = {
+            'L1Norm': lambda: S.L1Norm(sp), 'L2Norm': lambda: S.L2Norm(sp), 'L2NormSquared': lambda: S.L2NormSquared(sp),
+            'LpNorm1.5': lambda: S.LpNorm(sp, 1.5), 'GroupL1Norm': lambda: S.GroupL1Norm(pd),
+            'IndicatorBox': lambda: S.IndicatorBox(sp, -1, 1), 'IndicatorNonnegativity': lambda: S.IndicatorNonnegativity(sp),
+            'IndicatorZero': lambda: S.IndicatorZero(sp), 'IndicatorSimplex': lambda: S.IndicatorSimplex(sp),
+            'IndicatorLpUnitBall2': lambda: S.IndicatorLpUnitBall(sp, 2), 'IndicatorLpUnitBall1': lambda: S.IndicatorLpUnitBall(sp, 1),
+            'IndicatorLpUnitBallInf': lambda: S.IndicatorLpUnitBall(sp, np.inf),
+            'IndicatorGroupL1UnitBall': lambda: S.IndicatorGroupL1UnitBall(pd),
+            'ZeroFunctional': lambda: S.ZeroFunctional(sp), 'ConstantFunctional': lambda: S.ConstantFunctional(sp, 2.0),
+            'KullbackLeibler': lambda: S.KullbackLeibler(sp, prior=v(sp, 'pos')),
+            'KullbackLeiblerCrossEntropy': lambda: S.KullbackLeiblerCrossEntropy(sp, prior=v(sp, 'pos')),
+            'Huber': lambda: S.Huber(sp, 0.5), 'QuadraticForm': lambda: S.QuadraticForm(operator=odl.ScalingOperator(sp, 2.0), vector=v(sp)),
+            'SeparableSum': lambda: S.SeparableSum(S.L1Norm(sp), S.L2NormSquared(sp)),
+            'NuclearNorm': lambda: S.NuclearNorm(odl.ProductSpace(odl.ProductSpace(self.dsp2, 2), 2)),
+            'MoreauEnvelope': lambda: S.MoreauEnvelope(S.L1Norm(sp), sigma=0.5),
+            'RosenbrockFunctional': lambda: S.RosenbrockFunctional(sp),
+            '2*L1': lambda: 2.0 * S.L1Norm(sp), 'L1*2': lambda: S.L1Norm(sp) * 2.0,
+            'L2sq.translated': lambda: S.L2NormSquared(sp).translated(v(sp)),
+            'L1+L2sq': lambda: S.L1Norm(sp) + S.L2NormSquared(sp), 'L2sq+2': lambda: S.L2NormSquared(sp) + 2.0,
+            'L2sq o A': lambda: S.L2NormSquared(sp) * odl.ScalingOperator(sp, 2.0),
+            'QuadPerturb': lambda: S.FunctionalQuadraticPerturb(S.L1Norm(sp), quadratic_coeff=0.5, linear_term=v(sp)),
+        }
+        posfun = ('KullbackLeibler', 'KullbackLeiblerCrossEntropy')
+        for name, mk in fun.items():
+            kind = 'pos' if name in posfun else 'any'
+            add('%s.gradient' % name, (lambda mk=mk: mk().gradient), kind)
+            for sig in (0.5, 100.0):
+                add('%s.proximal(%s)' % (name, sig), (lambda mk=mk, sig=sig: mk().proximal(sig)), kind)
+                add('%s.convex_conj.proximal(%s)' % (name, sig), (lambda mk=mk, sig=sig: mk().convex_conj.proximal(sig)),
+                    'prob' if name in posfun else 'any')
+            add('%s.convex_conj' % name, (lambda mk=mk: mk().convex_conj), 'prob' if name in posfun else 'any')
+            add('%s.convex_conj.gradient' % name, (lambda mk=mk: mk().convex_conj.gradient), 'prob' if name in posfun else 'any')
+        # proximal factories called directly, all options
+        g = lambda: v(sp)
+        for sig in (0.5, 100.0):
+            add('proximal_const_func(%s)' % sig, (lambda sig=sig: P.proximal_const_func(sp)(sig)))
+            add('proximal_box_constraint(%s)' % sig, (lambda sig=sig: P.proximal_box_constraint(sp, -1, 1)(sig)))
+            add('proximal_box_constraint-lower(%s)' % sig, (lambda sig=sig: P.proximal_box_constraint(sp, lower=0)(sig)))
+            add('proximal_nonnegativity(%s)' % sig, (lambda sig=sig: P.proximal_nonnegativity(sp)(sig)))
+            for fac in ('proximal_l1', 'proximal_convex_conj_l1', 'proximal_l2', 'proximal_convex_conj_l2',
+                        'proximal_l2_squared', 'proximal_convex_conj_l2_squared', 'proximal_linfty',
+                        'proximal_convex_conj_linfty'):
+                add('%s(%s)' % (fac, sig), (lambda fac=fac, sig=sig: getattr(P, fac)(sp)(sig)))
+                if fac not in ('proximal_linfty', 'proximal_convex_conj_linfty'):
+                    add('%s-g(%s)' % (fac, sig), (lambda fac=fac, sig=sig: getattr(P, fac)(sp, lam=2, g=g())(sig)))
+            for fac in ('proximal_l1_l2', 'proximal_convex_conj_l1_l2'):
+                add('%s(%s)' % (fac, sig), (lambda fac=fac, sig=sig: getattr(P, fac)(pd)(sig)))
+                add('%s-g(%s)' % (fac, sig), (lambda fac=fac, sig=sig: getattr(P, fac)(pd, lam=2, g=v(pd))(sig)))
+            add('proximal_convex_conj_kl(%s)' % sig, (lambda sig=sig: P.proximal_convex_conj_kl(sp, g=v(sp, 'pos'))(sig)), 'prob')
+            add('proximal_convex_conj_kl_cross_entropy(%s)' % sig,
+                (lambda sig=sig: P.proximal_convex_conj_kl_cross_entropy(sp, g=v(sp, 'pos'))(sig)))
+            add('proximal_huber(%s)' % sig, (lambda sig=sig: P.proximal_huber(sp, 0.5)(sig)))
+            base = P.proximal_l2_squared(sp)
+            add('proximal_translation(%s)' % sig, (lambda sig=sig: P.proximal_translation(base, v(sp))(sig)))
+            add('proximal_arg_scaling(%s)' % sig, (lambda sig=sig: P.proximal_arg_scaling(base, 2.0)(sig)))
+            add('proximal_arg_scaling0(%s)' % sig, (lambda sig=sig: P.proximal_arg_scaling(base, 0.0)(sig)))
+            add('proximal_quadratic_perturbation(%s)' % sig, (lambda sig=sig: P.proximal_quadratic_perturbation(base, 0.5, v(sp))(sig)))
+            add('proximal_composition(%s)' % sig, (lambda sig=sig: P.proximal_composition(base, odl.ScalingOperator(sp, 2.0), 4.0)(sig)))
+            add('proximal_convex_conj(%s)' % sig, (lambda sig=sig: P.proximal_convex_conj(base)(sig)))
+            add('combine_proximals(%s)' % sig, (lambda sig=sig: P.combine_proximals(base, P.proximal_l1(sp))(sig)))
+        # derivative / adjoint / inverse of operator recipes
+        add('Gradient.adjoint', lambda: odl.Gradient(self.dsp2).adjoint)
+        add('Divergence.adjoint', lambda: odl.Divergence(range=self.dsp2).adjoint)
+        add('PartialDerivative.adjoint', lambda: odl.PartialDerivative(self.dsp2, 0).adjoint)
+        add('Laplacian.adjoint', lambda: odl.Laplacian(self.dsp2).adjoint)
+        add('PointwiseNorm.derivative', lambda: odl.PointwiseNorm(pd).derivative(v(pd, 'pos')))
+        add('PowerOperator.derivative', lambda: odl.PowerOperator(sp, 3).derivative(v(sp)))
+        add('SamplingOperator.adjoint', lambda: odl.SamplingOperator(self.dsp2, [[0, 1], [2, 1]]).adjoint)
+        add('MatrixOperator.adjoint', lambda: odl.MatrixOperator(self.mat(self.n + 1, self.n)).adjoint)
+        add('ufunc.sin.derivative', lambda: odl.ufunc_ops.sin(sp).derivative(v(sp)))
+        return out
+
+
+UFUNC_INPUT = {'arccos': 'unit', 'arcsin': 'unit', 'arctanh': 'unit', 'arccosh': 'ge1', 'log': 'pos', 'log10': 'pos',
+               'log2': 'pos', 'log1p': 'pos', 'sqrt': 'pos', 'reciprocal': 'pos', 'power': 'pos', 'divide': 'pos',
+               'true_divide': 'pos', 'floor_divide': 'pos', 'mod': 'pos', 'fmod': 'pos', 'remainder': 'pos',
+               'left_shift': 'pos', 'right_shift': 'pos'}
+
+
+def _ufunc_ops(rng, big):
+    """(label, builder, kind) for every name of odl.util.ufuncs.UFUNCS on float and int spaces."""
+    import odl
+    from odl.util.ufuncs import UFUNCS
+    n = 120 if big else 3
+    out = []
+    for entry in UFUNCS:
+        name = entry[0]
+        kind = UFUNC_INPUT.get(name, 'any')
+        for tag, sp in (('float', odl.rn(n)), ('int', odl.tensor_space(n, dtype=int))):
+            out.append(('%s-%s' % (name, tag), (lambda name=name, sp=sp: getattr(odl.ufunc_ops, name)(sp)),
+                        kind, name))
+        out.append(('%s-field' % name, (lambda name=name: getattr(odl.ufunc_ops, name)(odl.RealNumbers())),
+                    kind, name))
+    return out
+
+
+def _snippet(setup, label):
+    return ("import numpy as np, odl, random, sys\nsys.path.insert(0, %r)\nfrom harness import c03\n"
+            "ok, observed = c03.replay_probe(%r, %r)\n" % (C.VERIF, setup, label))
+
+
+def probe_operator(op, kind, rng, cls, label, sizeclass, setup):
+    """Evaluate the property on one operator instance.  Returns a list of C.Probe."""
+    import odl
+    from odl.operator.operator import OpDomainError, OpRangeError
+    res = []
+    tag = '%s[%s]' % (cls, label)
+
+    def P(ok, clause, what, detail=None):
+        res.append(C.Probe(bool(ok), '%s:%s:%s' % (cls, clause, sizeclass), '%s %s: %s' % (tag, sizeclass, what),
+                           _snippet(setup, clause), detail))
+
+    dom, ran = op.domain, op.range
+    scalar_dom = isinstance(dom, odl.set.sets.Field)
+    x = _rand(dom, rng, kind)
+    if not scalar_dom:
+        xb = _flat(x).tobytes()
+    functional = isinstance(ran, odl.set.sets.Field)
+    # ---- out-of-place
+    try:
+        r1 = op(x)
+    except NotImplementedError as e:
+        P(True, 'call-not-implemented', 'op(x) is not implemented (nothing to check)')
+        return res
+    except Exception as e:      # noqa
+        P(False, 'oop-raises', 'op(x) raised %s: %s' % (type(e).__name__, str(e)[:100]))
+        return res
+    P(r1 in ran, 'range', 'op(x) is an element of op.range')
+    if not scalar_dom:
+        P(_flat(x).tobytes() == xb, 'x-changed-oop', 'x bit-for-bit unchanged by op(x)')
+    v1 = np.array([r1]) if functional else np.array(_flat(r1), copy=True)
+    # the same call again must give the same values (first-call effects, hidden state)
+    try:
+        r1r = op(x)
+        v1r = np.array([r1r]) if functional else np.array(_flat(r1r), copy=True)
+        same = _close(v1r, v1)
+        P(same, 'repeat-call', 'op(x) evaluated twice gives the same values',
+          {'first': v1[:6].tolist(), 'second': v1r[:6].tolist()})
+        if not same:
+            v1 = v1r
+    except Exception as e:      # noqa
+        P(False, 'oop-raises', 'second op(x) raised %s' % type(e).__name__)
+    # determinism w.r.t. uninitialised memory: same call after NaN blocks were freed
+    if not functional and not scalar_dom:
+        try:
+            _poison_allocator(ran)
+            _poison_allocator(dom)
+            r1b = op(x)
+            P(_close(_flat(r1b), v1), 'oop-uninit', 'op(x) does not depend on the contents of uninitialised memory',
+              {'first': v1[:6].tolist(), 'second': _flat(r1b)[:6].tolist()})
+        except Exception as e:      # noqa
+            P(False, 'oop-raises', 'second op(x) raised %s' % type(e).__name__)
+    # ---- in-place
+    if functional:
+        try:
+            op(x, out=2.0)
+            P(False, 'functional-out', 'functional called with out must raise')
+        except (TypeError, OpRangeError):
+            P(True, 'functional-out', 'functional called with out raises a type error')
+        except Exception as e:      # noqa
+            P(False, 'functional-out', 'functional called with out raised %s' % type(e).__name__)
+    elif not scalar_dom:
+        for init in ('nan', 'rand'):
+            y = _poison(ran) if init == 'nan' else _rand(ran, rng)
+            try:
+                r2 = op(x, out=y)
+            except Exception as e:      # noqa
+                P(False, 'ip-raises', 'op(x, out=y) raised %s: %s' % (type(e).__name__, str(e)[:100]))
+                break
+            P(r2 is y, 'identity', 'op(x, out=y) returns the object y')
+            P(_close(_flat(y), v1), 'ip-neq-oop-%s' % init,
+              'op(x, out=y) holds the values of op(x) (y initially %s)' % ('NaN-filled' if init == 'nan' else 'random'),
+              {'oop': v1[:6].tolist(), 'ip': _flat(y)[:6].tolist()})
+            P(_flat(x).tobytes() == xb, 'x-changed-ip', 'x bit-for-bit unchanged by op(x, out=y)')
+        # ---- rejections
+        try:
+            bad_out = odl.rn(int(np.prod(getattr(ran, 'shape', (1,)))) + 5).element()
+            before = _flat(x).tobytes()
+            op(x, out=bad_out)
+            P(False, 'reject-range', 'out from another space must be rejected')
+        except OpRangeError:
+            P(_flat(x).tobytes() == before, 'reject-range', 'out from another space raises OpRangeError, x untouched')
+        except Exception as e:      # noqa
+            P(False, 'reject-range', 'out from another space raised %s instead of OpRangeError' % type(e).__name__)
+        if hasattr(ran, 'shape') and hasattr(ran, 'dtype') and _is_float(np.dtype(ran.dtype)):
+            try:
+                foreign = odl.tensor_space(ran.shape, dtype=ran.dtype, weighting=3.7).element(
+                    np.zeros(ran.shape, dtype=ran.dtype))
+                before = _flat(x).tobytes()
+                op(x, out=foreign)
+                P(False, 'reject-range-sameshape', 'out of the same shape from another space must be rejected')
+            except OpRangeError:
+                P(_flat(x).tobytes() == before and not _flat(foreign).any(), 'reject-range-sameshape',
+                  'out of the same shape from another space raises OpRangeError; neither x nor out touched')
+            except Exception as e:      # noqa
+                P(False, 'reject-range-sameshape', 'foreign out raised %s instead of OpRangeError' % type(e).__name__)
+    try:
+        op('not an element')
+        P(False, 'reject-domain', 'a string argument must be rejected')
+    except OpDomainError:
+        P(True, 'reject-domain', 'a string argument raises OpDomainError')
+    except Exception as e:      # noqa
+        P(False, 'reject-domain', 'a string argument raised %s instead of OpDomainError' % type(e).__name__)
+    return res
+
+
+def _all_recipes(rng, big):
+    """[(class name, label, builder, kind, setup-key)]"""
+    R = _Recipes(rng, big)
+    out = []
+    for cls, lst in sorted(R.table().items()):
+        for label, build, kind in lst:
+            out.append((cls, label, build, kind))
+    for label, build, kind in R.derived():
+        out.append((None, label, build, kind))
+    for label, build, kind, name in _ufunc_ops(rng, big):
+        out.append(('ufunc_' + name, label, build, kind))
+    return out
+
+
+def enumerate_classes():
+    """Every concrete Operator subclass importable from the odl package (contrib excluded)."""
+    import importlib
+    import inspect
+    import pkgutil
+    import odl
+    from odl.operator import Operator
+    for m in pkgutil.walk_packages(odl.__path__, 'odl.'):
+        if '.test' in m.name or m.name.startswith('odl.contrib'):
+            continue
+        try:
+            importlib.import_module(m.name)
+        except Exception:      # noqa
+            pass
+
+    def subs(c):
+        o = set()
+        for s in c.__subclasses__():
+            o.add(s)
+            o |= subs(s)
+        return o
+    return sorted((c for c in subs(Operator) if not c.__module__.startswith('odl.contrib')
+                   and not c.__module__.startswith('harness')),
+                  key=lambda c: (c.__module__, c.__qualname__))
+
+
+COVERAGE = {}
+# base classes whose `_call` is abstract / delegates to a subclass hook; never instantiated on their own
+ABSTRACT_BASES = ('Functional', 'DiscreteFourierTransformBase', 'FourierTransformBase', 'WaveletTransformBase',
+                  'PointwiseInnerBase', 'PointwiseTensorFieldOperator')
+
+
+def replay_probe(setup, clause):
+    """Re-run one recipe (identified by (big, index, seed)) and report the named clause."""
+    import random
+    big, idx, seed = setup
+    rng = random.Random(seed)
+    recs = _all_recipes(rng, big)
+    cls, label, build, kind = recs[idx]
+    op = build()
+    name = cls or type(op).__name__
+    ps = probe_operator(op, kind, random.Random(seed + 1), name, label, 'large' if big else 'small', setup)
+    bad = [p for p in ps if not p.ok and p.key.split(':')[1] == clause]
+    return (not bad), [p.what for p in bad]
+
+
+def probes(rng, tier):
+    import random
+    out = []
+    seen_classes = set()
+    failed_build = []
+    seeds = [rng.randrange(10 ** 6)] if tier == 'quick' else [rng.randrange(10 ** 6) for _ in range(3)]
+    for seed in seeds:
+        for big in (False, True):
+            recs = _all_recipes(random.Random(seed), big)
+            for idx, (cls, label, build, kind) in enumerate(recs):
+                try:
+                    op = build()
+                except Exception as e:      # noqa
+                    failed_build.append('%s[%s]: %s' % (cls, label, type(e).__name__))
+                    continue
+                name = cls or type(op).__name__
+                seen_classes.add(type(op).__name__)
+                # classes reached below the top object (operands) count as covered, too
+                out += probe_operator(op, kind, random.Random(seed + 1), name, label,
+                                      'large' if big else 'small', (big, idx, seed))
+    allc = enumerate_classes()
+    names = sorted(set(c.__name__ for c in allc))
+    COVERAGE['classes_total'] = len(allc)
+    COVERAGE['classes_probed'] = sorted(seen_classes)
+    COVERAGE['abstract_bases'] = [n for n in names if n not in seen_classes and n in ABSTRACT_BASES]
+    COVERAGE['classes_without_recipe'] = [n for n in names if n not in seen_classes and n not in ABSTRACT_BASES]
+    COVERAGE['recipes_failed_to_build'] = sorted(set(failed_build))
+    C.write_replay(PID, 'coverage', COVERAGE)
+    return out
